@@ -1,13 +1,17 @@
 // footprint - extracts from /repo's CURRENT source, for C20: every function of the
 // inspector packages (SSA form), its static and interface (CHA) call edges, and
-// the package-level variables it stores to; the run-time API roots; and prints
-// them as a Coq file (coq/Gen/FootprintFacts.v).
+// the package-level variables it stores to; the run-time API roots; for every
+// function the parameters its results may be derived from (is the parameter, a
+// slice or a reinterpretation of it, or memory loaded through it: what a caller
+// gets back is then not memory of its own); and prints them as a Coq file
+// (coq/Gen/FootprintFacts.v).
 //
 //	footprint <repo-dir> > FootprintFacts.v
 package main
 
 import (
 	"fmt"
+	"go/token"
 	"go/types"
 	"os"
 	"sort"
@@ -44,6 +48,251 @@ func global(v ssa.Value) *ssa.Global {
 			return nil
 		}
 	}
+}
+
+// ---- which parameters may a result be derived from -------------------------------------
+// A may-analysis over the SSA form, per function, with the summaries of the described
+// functions substituted at static calls (fixpoint) and every other call taken to hand back
+// anything it was given.  bit i = parameter i (receiver first).  "Derived from": the result is
+// the parameter, a slice / field / element / reinterpretation (unsafe) of it, or a value
+// loaded through it.  Fresh: make, new, literals, append's growth is NOT fresh for its
+// first argument (the result may be the same array), copying conversions string <-> []byte are.
+type pset uint64
+
+type derive struct {
+	sum     map[*ssa.Function][]pset
+	changed bool
+}
+
+func carries(t types.Type) bool {
+	switch u := t.Underlying().(type) {
+	case *types.Basic:
+		return u.Kind() == types.String || u.Kind() == types.UnsafePointer || u.Kind() == types.Uintptr || u.Kind() == types.UntypedNil || u.Kind() == types.UntypedString
+	}
+	return true
+}
+
+func all(f *ssa.Function) pset { return pset(1)<<uint(len(f.Params)) - 1 }
+
+func addrRoot(v ssa.Value) ssa.Value {
+	for {
+		switch x := v.(type) {
+		case *ssa.FieldAddr:
+			v = x.X
+		case *ssa.IndexAddr:
+			v = x.X
+		case *ssa.Convert:
+			v = x.X
+		case *ssa.ChangeType:
+			v = x.X
+		default:
+			return v
+		}
+	}
+}
+
+func isText(t types.Type) bool {
+	switch u := t.Underlying().(type) {
+	case *types.Basic:
+		return u.Info()&types.IsString != 0
+	case *types.Slice:
+		b, ok := u.Elem().Underlying().(*types.Basic)
+		return ok && (b.Kind() == types.Byte || b.Kind() == types.Rune || b.Kind() == types.Uint8 || b.Kind() == types.Int32)
+	}
+	return false
+}
+
+func (d *derive) stored(f *ssa.Function, a *ssa.Alloc, seen map[ssa.Value]bool) pset {
+	var r pset
+	for _, b := range f.Blocks {
+		for _, ins := range b.Instrs {
+			if st, ok := ins.(*ssa.Store); ok && addrRoot(st.Addr) == ssa.Value(a) {
+				r |= d.flows(f, st.Val, seen)
+			}
+		}
+	}
+	return r
+}
+
+func (d *derive) call(f *ssa.Function, c *ssa.CallCommon, nres, idx int, seen map[ssa.Value]bool) pset {
+	if b, ok := c.Value.(*ssa.Builtin); ok {
+		if b.Name() == "append" {
+			return d.flows(f, c.Args[0], seen)
+		}
+		return 0
+	}
+	var r pset
+	if callee := c.StaticCallee(); callee != nil {
+		if sm, ok := d.sum[callee]; ok && len(sm) == nres && len(callee.Params) == len(c.Args) {
+			for j, a := range c.Args {
+				if sm[idx]&(pset(1)<<uint(j)) != 0 {
+					r |= d.flows(f, a, seen)
+				}
+			}
+			return r
+		}
+	}
+	// not described (standard library, interface method, function value): may hand back what it was given
+	if c.IsInvoke() || c.StaticCallee() == nil {
+		r |= d.flows(f, c.Value, seen)
+	}
+	for _, a := range c.Args {
+		r |= d.flows(f, a, seen)
+	}
+	return r
+}
+
+func (d *derive) flows(f *ssa.Function, v ssa.Value, seen map[ssa.Value]bool) pset {
+	if v == nil || seen[v] || !carries(v.Type()) {
+		return 0
+	}
+	// one visited set per query: the answer is the union over everything reachable
+	seen[v] = true
+	switch x := v.(type) {
+	case *ssa.Parameter:
+		for i, p := range f.Params {
+			if p == x {
+				return pset(1) << uint(i)
+			}
+		}
+		return all(f)
+	case *ssa.Const, *ssa.MakeSlice, *ssa.MakeMap, *ssa.MakeChan, *ssa.Global, *ssa.Function, *ssa.Builtin:
+		return 0
+	case *ssa.Alloc:
+		return d.stored(f, x, seen)
+	case *ssa.Slice:
+		return d.flows(f, x.X, seen)
+	case *ssa.Phi:
+		var r pset
+		for _, e := range x.Edges {
+			r |= d.flows(f, e, seen)
+		}
+		return r
+	case *ssa.Convert:
+		if isText(x.Type()) && isText(x.X.Type()) && !types.Identical(x.Type().Underlying(), x.X.Type().Underlying()) {
+			return 0 // string <-> []byte / []rune: a copy
+		}
+		return d.flows(f, x.X, seen)
+	case *ssa.ChangeType:
+		return d.flows(f, x.X, seen)
+	case *ssa.ChangeInterface:
+		return d.flows(f, x.X, seen)
+	case *ssa.MakeInterface:
+		return d.flows(f, x.X, seen)
+	case *ssa.SliceToArrayPointer:
+		return d.flows(f, x.X, seen)
+	case *ssa.TypeAssert:
+		return d.flows(f, x.X, seen)
+	case *ssa.FieldAddr:
+		return d.flows(f, x.X, seen)
+	case *ssa.IndexAddr:
+		return d.flows(f, x.X, seen)
+	case *ssa.Field:
+		return d.flows(f, x.X, seen)
+	case *ssa.Index:
+		return d.flows(f, x.X, seen)
+	case *ssa.Lookup:
+		return d.flows(f, x.X, seen)
+	case *ssa.MakeClosure:
+		var r pset
+		for _, b := range x.Bindings {
+			r |= d.flows(f, b, seen)
+		}
+		return r
+	case *ssa.BinOp:
+		if b, ok := x.Type().Underlying().(*types.Basic); ok && b.Kind() == types.Uintptr {
+			return d.flows(f, x.X, seen) | d.flows(f, x.Y, seen)
+		}
+		return 0 // string concatenation, comparisons: fresh
+	case *ssa.UnOp:
+		if x.Op != token.MUL {
+			if x.Op == token.ARROW {
+				return all(f)
+			}
+			return 0
+		}
+		root := addrRoot(x.X)
+		switch r := root.(type) {
+		case *ssa.Alloc:
+			return d.stored(f, r, seen)
+		case *ssa.Global:
+			return 0
+		}
+		return d.flows(f, root, seen)
+	case *ssa.Call:
+		return d.call(f, x.Common(), 1, 0, seen)
+	case *ssa.Extract:
+		if c, ok := x.Tuple.(*ssa.Call); ok {
+			n := c.Type().(*types.Tuple).Len()
+			return d.call(f, c.Common(), n, x.Index, seen)
+		}
+		switch t := x.Tuple.(type) {
+		case *ssa.TypeAssert:
+			return d.flows(f, t.X, seen)
+		case *ssa.Lookup:
+			return d.flows(f, t.X, seen)
+		case *ssa.UnOp:
+			return d.flows(f, t, seen)
+		}
+		return all(f)
+	}
+	return all(f)
+}
+
+func (d *derive) function(f *ssa.Function) {
+	n := f.Signature.Results().Len()
+	cur := d.sum[f]
+	if len(cur) != n {
+		cur = make([]pset, n)
+		d.sum[f] = cur
+	}
+	for _, b := range f.Blocks {
+		for _, ins := range b.Instrs {
+			ret, ok := ins.(*ssa.Return)
+			if !ok {
+				continue
+			}
+			for i, r := range ret.Results {
+				if i >= n {
+					break
+				}
+				s := d.flows(f, r, map[ssa.Value]bool{})
+				if s|cur[i] != cur[i] {
+					cur[i] |= s
+					d.changed = true
+				}
+			}
+		}
+	}
+}
+
+func resultsFrom(fns []*ssa.Function) [][]int {
+	d := &derive{sum: map[*ssa.Function][]pset{}}
+	for _, f := range fns {
+		d.sum[f] = make([]pset, f.Signature.Results().Len())
+	}
+	for round := 0; round < 64; round++ {
+		d.changed = false
+		for _, f := range fns {
+			d.function(f)
+		}
+		if !d.changed {
+			break
+		}
+	}
+	out := make([][]int, len(fns))
+	for i, f := range fns {
+		var u pset
+		for _, s := range d.sum[f] {
+			u |= s
+		}
+		for j := range f.Params {
+			if u&(pset(1)<<uint(j)) != 0 {
+				out[i] = append(out[i], j)
+			}
+		}
+	}
+	return out
 }
 
 func main() {
@@ -180,4 +429,23 @@ func main() {
 		rs = append(rs, fmt.Sprint(r))
 	}
 	fmt.Printf("\nDefinition fp_roots : list N := [%s].\n", strings.Join(rs, "; "))
+
+	// (id, parameters - receiver first, from 0 - that a result of the function may be derived from)
+	fmt.Println("\n(* (id, parameters a result may be derived from: the parameter itself, a slice or reinterpretation of it,")
+	fmt.Println("   memory loaded through it; receiver first, counted from 0); functions with none are left out *)")
+	fmt.Println("Definition fp_result_from : list (N * list N) := [")
+	rf := resultsFrom(fns)
+	var rows []string
+	for i := range fns {
+		if len(rf[i]) == 0 {
+			continue
+		}
+		var ps []string
+		for _, j := range rf[i] {
+			ps = append(ps, fmt.Sprint(j))
+		}
+		rows = append(rows, fmt.Sprintf("  (%d, [%s])", i, strings.Join(ps, "; ")))
+	}
+	fmt.Println(strings.Join(rows, ";\n"))
+	fmt.Println("].")
 }
